@@ -53,12 +53,14 @@ ResTerm(e) ==
            LET v == ResTerm(e.a[1])  ix == e.a[2] IN
            IF v.k \in {"tuple", "list"} /\ ix.k = "int" /\ PyIndex(Len(v.a), ix.n) # 0 THEN v.a[PyIndex(Len(v.a), ix.n)]
            ELSE IF v.k = "dict" /\ ix.k \in {"str", "int"} /\ \E i \in 1..(Len(v.a) \div 2) : v.a[2 * i - 1] = ix
-                THEN v.a[2 * (CHOOSE i \in 1..(Len(v.a) \div 2) : v.a[2 * i - 1] = ix)]
+                THEN v.a[2 * (CHOOSE i \in 1..(Len(v.a) \div 2) : v.a[2 * i - 1] = ix /\
+                                  \A j \in (i + 1)..(Len(v.a) \div 2) : v.a[2 * j - 1] # ix)]
            ELSE [e EXCEPT !.a = <<v, ix>>]
       [] e.k = "attr" ->
            LET v == ResTerm(e.a[1]) IN
            IF v.k = "dict" /\ \E i \in 1..(Len(v.a) \div 2) : v.a[2 * i - 1] = StrC(e.s)
-           THEN v.a[2 * (CHOOSE i \in 1..(Len(v.a) \div 2) : v.a[2 * i - 1] = StrC(e.s))]
+           THEN v.a[2 * (CHOOSE i \in 1..(Len(v.a) \div 2) : v.a[2 * i - 1] = StrC(e.s) /\
+                             \A j \in (i + 1)..(Len(v.a) \div 2) : v.a[2 * j - 1] # StrC(e.s))]
            ELSE [e EXCEPT !.a = <<v>>]
       [] e.k = "call" /\ e.a[1].k = "name" /\ e.a[1].s \in {"Select", "Where", "SelectMany"} /\ e.n = 2 ->
            ResTerm(ResultExpr(e))
